@@ -3,8 +3,7 @@ C39 — The formatter preserves meaning and comments and is idempotent.
 
 Model: Verif.Model.Front.Layout (documents and layout of turbolent/prettier, external, modelled),
 Verif.Model.Front.Trivia (ports of the post-passes stripTrailingLineWhitespace / collapseBlankLines).
-Verif.Model.Front.Attach (the slot-assignment loops of trivia.attachLevel; modelled, not tied by a stream of
-its own).  Idempotence is NOT modelled: correspondence (stream `fmt`) only.
+Verif.Model.Front.Attach (the slot-assignment loops of trivia.attachLevel, tied by stream `attach`).  Idempotence is NOT modelled: correspondence (stream `fmt`) only.
 -/
 import Verif.Proofs.Layout
 import Verif.Proofs.Attach
@@ -78,9 +77,11 @@ open Verif.Model.Front.Attach in
     overwrite when element identities are distinct and every element is visited once — not proved);
     (2) the three `hoist…` post-passes of `Attach` and the rendering of the slots (`CommentMap.Wrap` /
     `Take`: every slot emitted once) are not modelled — the recorded findings `comment-next-to-else-dropped`
-    and `comment-inside-string-template-dropped` live there; (3) the model is not tied to /repo by a stream
-    of its own: per input, the `fmt` stream's Go-only oracle checks that every input comment occurs exactly
-    once in the formatted output. -/
+    and `comment-inside-string-template-dropped` live there.
+    Tie: stream `attach` — on generated programs with comments at every white-space position (plus header /
+    footer comments) the model's assignments equal the `CommentMap` of the real `attachLevel` (verif hook
+    `trivia.VerifAttachLevel`, forest = `StartPosition` / `EndPosition` / `trueEndPosition` / `getChildren` of the
+    real elements), and Go's map is judged directly: every group in exactly one slot. -/
 theorem comments_once_partial (fuel : Nat) (decls : List N) (gs : List G) :
     groupsOf (attach fuel decls gs) = gs :=
   Verif.Proofs.Attach.attach_cons fuel decls gs
